@@ -115,6 +115,9 @@ def stepwise(r, w, mode):
                 wr(list(v))
             elif mode == "gen":
                 wr((x for x in v))
+            elif mode == "reuse":
+                # a producer that refills one object per item (a numpy buffer, a record instance, a list, a dict) and yields it again
+                wr(reusing(list(v)))
             elif mode == "itemwise":
                 n = 0
                 for x in v:
@@ -137,6 +140,28 @@ def stepwise(r, w, mode):
                 raise ValueError("unknown mode " + mode)
         else:
             wr(v)
+
+
+def reusing(items):
+    import copy
+    import numpy as np
+    holder = None
+    for it in items:
+        same = holder is not None and type(holder) is type(it)
+        if same and isinstance(it, np.ndarray) and it.shape == holder.shape and it.dtype == holder.dtype and it.dtype != object:
+            holder[...] = it
+        elif same and isinstance(it, list):
+            holder[:] = it
+        elif same and isinstance(it, dict):
+            holder.clear()
+            holder.update(it)
+        elif same and hasattr(it, "__dict__") and not isinstance(it, type) and type(it).__module__ not in ("builtins", "datetime", "enum") and not hasattr(it, "_value_") \
+                and not type(it).__name__.endswith("UnionCase") and "yardl_types" not in type(it).__module__:
+            holder.__dict__.clear()
+            holder.__dict__.update(it.__dict__)
+        else:
+            holder = copy.copy(it) if isinstance(it, (list, dict, np.ndarray)) or hasattr(it, "__dict__") else it
+        yield holder
 
 
 def run_sm(mod, proto, role, seq, k):
